@@ -356,3 +356,19 @@ SPECS.append({
  "manifest": {"text": "Bounded symbolic execution of the binary loaders over symbolic file bytes with an allocation-size obligation at every input-sized make; relational check that the semantic stage is inert without data; syntactic (hash-consed) bit-symmetry of cosine.",
               "note": "Trusted: executor, z3/cvc5, file model. Partial claim: the cosine range and bounded-factor clauses are outside (FP div/sqrt beyond solver reach here)."},
 })
+
+SPECS.append({
+ "property_id": "C17", "level": "model_checking",
+ "explanation": "The command tree is executed in-process through rootCmd.Execute(): cobra's dispatch, pflag's parsing, the persistent-flag merge and every handler run from source inside the executor, with argv, the environment (NO_COLOR), the home directory, the database file (--database) and the history file as inputs of the file-system / environment model; standard output is captured (exact for concrete operands). Decided: no sub-command panics for the generated argument vectors; for the search command the printed rows (list and table formats) are exactly the engine's results for the same database and options, in rank order and never more than the limit in force; no escape sequence with --no-color / NO_COLOR; exactly one history entry corresponding to the search. Counterexamples are replayed natively by calling rootCmd.Execute() in a test of package cli with HOME pointing at a scratch directory.",
+ "assumptions": ["argument vectors from a generated family (12 command shapes x database / verbose flags; search: 3 queries x 5 limits x 3 formats x 3 colour settings x verbose x explicit `search`)", "database: 5 commands in a --database file; built-in fallback otherwise", "package init functions (flag registration) are executed as in the real program"],
+ "stubs": ["file-system model, yaml / json document stubs", "fmt.Printf / Println captured (exact for concrete operands)", "os.LookupEnv / os.Getenv model", "symbolic clock"],
+ "outside_the_claim": ["the OS process boundary: shell quoting, exit codes, real stdout / stderr separation", "--format json: the bytes written by encoding/json's Encoder (well-formedness of the JSON text)", "wizard and setup / alias add / remove sub-commands (interactive input, shell rc files)", "arguments outside the generated family", "the shipped 6,619-entry database"],
+ "trusted_base": TB + ["the file-system / environment model"],
+ "harnesses": [
+  H("C17", "internal/cli", "Subcommands", "both", ["ran"], "12 argv shapes (search / default / save / save-pipeline / pipeline / history / alias list / usage errors) x --database x --verbose; 4 queries", "no sub-command crashes", synctest=True),
+  H("C17", "internal/cli", "SearchOutput", "both", ["searched", "nonempty"], "3 queries x limit {unset,1,2,3,100} x format {unset,list,table} x colour {on,--no-color,NO_COLOR} x verbose x explicit `search`", "printed rows = engine results, in order, <= limit; no escapes when colour is off; one history entry", synctest=True),
+ ],
+ "manifest": {"text": "Bounded symbolic execution of the whole in-process command tree (rootCmd.Execute: cobra, pflag and the handlers run from source) over a generated family of argument vectors, flags and environments, with captured standard output and a modelled home directory.",
+              "note": "Partial: everything up to the process boundary. Not decided: JSON bytes of --format json, exit codes, interactive sub-commands. Found the start-up panic of `wtf save` / `save-pipeline` (fixed, 1ae509c).",
+              "design": "DESIGN.md §5 C17"},
+})
